@@ -36,7 +36,7 @@ receivers:
 processors:
   batch: {timeout: 1sPB}
 exporters:
-  otlp: {endpoint: "localhost:1", tls: {insecure: trueET}, sending_queue: {queue_size: 10, batch: {flush_timeout: 1s, min_size: 1EB}EQ}, retry_on_failure: {enabled: trueER}EX}
+  otlp: {endpoint: "localhost:1", tls: {insecure: trueET}, sending_queue: {queue_size: 10, sizer: items, batch: {flush_timeout: 1s, min_size: 1EB}EQ}, retry_on_failure: {enabled: trueER}EX}
   otlphttp: {endpoint: "http://localhost:1"HX}
 service:
   telemetry:
